@@ -234,7 +234,7 @@ REWRITES = {"rename": rw_rename, "refstyle": rw_refstyle, "precedes": rw_precede
 def run(ctx):
     nob, ndis, failing, files = common.obligations(ctx, PROPS)
     base = []
-    for fam, nq, nt in (("deps", 80, 800), ("coredeps", 60, 600), ("hours", 50, 500), ("core", 30, 300), ("alap", 30, 300)):
+    for fam, nq, nt in (("deps", 80, 800), ("coredeps", 60, 600), ("hours", 50, 500), ("core", 30, 300), ("alap", 30, 300), ("dupprec", 80, 600)):
         base += gens.family(ctx, fam, ctx.n(nq, nt))
     for ap in base[::2]:
         decorate(ctx.rng, ap)
